@@ -425,7 +425,7 @@ func (u *clientUpdater) updateService(ctx context.Context, service ServiceDefini
 		return fmt.Errorf("failed to get presentations from discovery service (id=%s): %w", service.ID, err)
 	}
 	// check testSeed in store, wipe if it's different. Done by the store for transaction safety.
-	wiped, err := u.store.wipeOnSeedChange(service.ID, seed)
+	wiped, err := u.store.wipeIfSeedChanged(service.ID, seed)
 	if err != nil {
 		return fmt.Errorf("failed to wipe on testSeed change (service=%s, testSeed=%s): %w", service.ID, seed, err)
 	}
